@@ -72,11 +72,11 @@ func nodeName(i int) string { return fmt.Sprintf("node-%d", i) }
 // build constructs the strategy of the case around the node doubles of w and
 // returns a function that performs the call under test and identifies what
 // came back.
-func build(ctx context.Context, w *world) (func(context.Context) (ident, error), error) {
+func build(ctx context.Context, w *world) (func(context.Context, int) (ident, error), error) {
 	c := w.c
 	timeout := time.Duration(c.TimeoutMs) * time.Millisecond
 	clock := fakes.NewVClock(time.Unix(1600000000, 0), 12*time.Second, slotsPerEpoch)
-	clock.SetSlot(dutySlot, 4*time.Second)
+	clock.SetSlot(uint64(c.slot(0)), 4*time.Second)
 	cache := &cacheDouble{c: c}
 	n := len(c.Nodes)
 	mk := func(i int) node { return node{w: w, i: i} }
@@ -104,15 +104,15 @@ func build(ctx context.Context, w *world) (func(context.Context) (ident, error),
 		if err != nil {
 			return nil, err
 		}
-		return func(ctx context.Context) (ident, error) {
-			r, err := svc.AttestationData(ctx, &api.AttestationDataOpts{Slot: dutySlot, CommitteeIndex: committeeIndex})
+		return func(ctx context.Context, k int) (ident, error) {
+			r, err := svc.AttestationData(ctx, &api.AttestationDataOpts{Slot: phase0.Slot(c.slot(k)), CommitteeIndex: committeeIndex})
 			if err != nil {
 				return ident{}, err
 			}
 			if r == nil {
-				return ident{Nil: true, Tag: -1}, nil
+				return ident{Nil: true, Tag: -1, Call: -1}, nil
 			}
-			return identAtt(r.Data), nil
+			return c.identAtt(r.Data), nil
 		}, nil
 
 	case "aggregateattestation/best", "aggregateattestation/first":
@@ -130,15 +130,15 @@ func build(ctx context.Context, w *world) (func(context.Context) (ident, error),
 		if err != nil {
 			return nil, err
 		}
-		return func(ctx context.Context) (ident, error) {
-			r, err := svc.AggregateAttestation(ctx, &api.AggregateAttestationOpts{Slot: dutySlot, AttestationDataRoot: phase0.Root{1}})
+		return func(ctx context.Context, k int) (ident, error) {
+			r, err := svc.AggregateAttestation(ctx, &api.AggregateAttestationOpts{Slot: phase0.Slot(c.slot(k)), AttestationDataRoot: phase0.Root{1}})
 			if err != nil {
 				return ident{}, err
 			}
 			if r == nil {
-				return ident{Nil: true, Tag: -1}, nil
+				return ident{Nil: true, Tag: -1, Call: -1}, nil
 			}
-			return identAgg(r.Data), nil
+			return c.identAgg(r.Data), nil
 		}, nil
 
 	case "synccommitteecontribution/best", "synccommitteecontribution/first":
@@ -156,15 +156,15 @@ func build(ctx context.Context, w *world) (func(context.Context) (ident, error),
 		if err != nil {
 			return nil, err
 		}
-		return func(ctx context.Context) (ident, error) {
-			r, err := svc.SyncCommitteeContribution(ctx, &api.SyncCommitteeContributionOpts{Slot: dutySlot, SubcommitteeIndex: 2, BeaconBlockRoot: tagRoot(0x77, 0x03)})
+		return func(ctx context.Context, k int) (ident, error) {
+			r, err := svc.SyncCommitteeContribution(ctx, &api.SyncCommitteeContributionOpts{Slot: phase0.Slot(c.slot(k)), SubcommitteeIndex: 2, BeaconBlockRoot: tagRoot(0x77, 0x03)})
 			if err != nil {
 				return ident{}, err
 			}
 			if r == nil {
-				return ident{Nil: true, Tag: -1}, nil
+				return ident{Nil: true, Tag: -1, Call: -1}, nil
 			}
-			return identContribution(r.Data), nil
+			return c.identContribution(r.Data), nil
 		}, nil
 
 	case "beaconblockproposal/best", "beaconblockproposal/first":
@@ -184,15 +184,15 @@ func build(ctx context.Context, w *world) (func(context.Context) (ident, error),
 		if err != nil {
 			return nil, err
 		}
-		return func(ctx context.Context) (ident, error) {
-			r, err := svc.Proposal(ctx, &api.ProposalOpts{Slot: dutySlot, RandaoReveal: phase0.BLSSignature{1}, Graffiti: [32]byte{'c', '0', '7'}})
+		return func(ctx context.Context, k int) (ident, error) {
+			r, err := svc.Proposal(ctx, &api.ProposalOpts{Slot: phase0.Slot(c.slot(k)), RandaoReveal: phase0.BLSSignature{1}, Graffiti: [32]byte{'c', '0', '7'}})
 			if err != nil {
 				return ident{}, err
 			}
 			if r == nil {
-				return ident{Nil: true, Tag: -1}, nil
+				return ident{Nil: true, Tag: -1, Call: -1}, nil
 			}
-			return identProposal(r.Data), nil
+			return c.identProposal(r.Data), nil
 		}, nil
 
 	case "beaconblockroot/first", "beaconblockroot/latest", "beaconblockroot/majority":
@@ -215,15 +215,15 @@ func build(ctx context.Context, w *world) (func(context.Context) (ident, error),
 		if err != nil {
 			return nil, err
 		}
-		return func(ctx context.Context) (ident, error) {
-			r, err := svc.BeaconBlockRoot(ctx, &api.BeaconBlockRootOpts{Block: "head"})
+		return func(ctx context.Context, k int) (ident, error) {
+			r, err := svc.BeaconBlockRoot(ctx, &api.BeaconBlockRootOpts{Block: c.blockID(k)})
 			if err != nil {
 				return ident{}, err
 			}
 			if r == nil {
-				return ident{Nil: true, Tag: -1}, nil
+				return ident{Nil: true, Tag: -1, Call: -1}, nil
 			}
-			return identRoot(r.Data), nil
+			return c.identRoot(r.Data), nil
 		}, nil
 
 	case "beaconblockheader/first":
@@ -235,15 +235,15 @@ func build(ctx context.Context, w *world) (func(context.Context) (ident, error),
 		if err != nil {
 			return nil, err
 		}
-		return func(ctx context.Context) (ident, error) {
-			r, err := svc.BeaconBlockHeader(ctx, &api.BeaconBlockHeaderOpts{Block: "head"})
+		return func(ctx context.Context, k int) (ident, error) {
+			r, err := svc.BeaconBlockHeader(ctx, &api.BeaconBlockHeaderOpts{Block: c.blockID(k)})
 			if err != nil {
 				return ident{}, err
 			}
 			if r == nil {
-				return ident{Nil: true, Tag: -1}, nil
+				return ident{Nil: true, Tag: -1, Call: -1}, nil
 			}
-			return identHeader(r.Data), nil
+			return c.identHeader(r.Data), nil
 		}, nil
 
 	case "signedbeaconblock/first":
@@ -255,15 +255,15 @@ func build(ctx context.Context, w *world) (func(context.Context) (ident, error),
 		if err != nil {
 			return nil, err
 		}
-		return func(ctx context.Context) (ident, error) {
-			r, err := svc.SignedBeaconBlock(ctx, &api.SignedBeaconBlockOpts{Block: "head"})
+		return func(ctx context.Context, k int) (ident, error) {
+			r, err := svc.SignedBeaconBlock(ctx, &api.SignedBeaconBlockOpts{Block: c.blockID(k)})
 			if err != nil {
 				return ident{}, err
 			}
 			if r == nil {
-				return ident{Nil: true, Tag: -1}, nil
+				return ident{Nil: true, Tag: -1, Call: -1}, nil
 			}
-			return identBlock(r.Data), nil
+			return c.identBlock(r.Data), nil
 		}, nil
 	}
 	return nil, fmt.Errorf("unknown strategy %q", c.Strategy)
